@@ -24,7 +24,8 @@ def tx_bounds(ctx, rng, version):
     frame = get_frame()
     for retries in (1, 2, 3, 4):
         for answered in range(0, retries + 2):          # 0 = never; k = the k-th transmission is the first answered
-            for delay in (100, 1937, 2137):
+            RT = sessim.measure_params()[0]
+            for delay in (100, RT - 63, RT + 137):
                 if answered == 0 and delay != 100:
                     continue
                 token, key = rb(rng, 64), rb(rng, 32)
@@ -43,7 +44,7 @@ def tx_bounds(ctx, rng, version):
                 # expected by the contract: transmission k is answered after `delay`
                 if answered == 0 or answered > retries:
                     want_n, want_ok = retries, False
-                elif delay < 2000:
+                elif delay < RT:
                     want_n, want_ok = answered, True
                 else:
                     # the reply arrives during the NEXT attempt's wait (if there is one)
@@ -57,8 +58,8 @@ def tx_bounds(ctx, rng, version):
                     ctx.violate("tx_bounds", inp, out, "fail:timeout", "exhausted retries did not raise a timeout")
                 # retransmissions are spaced by the read timeout
                 ts = [sessim.ms(e["t"]) for e in tx]
-                if any(b - a != 2000 for a, b in zip(ts, ts[1:])):
-                    ctx.violate("tx_bounds", inp, ts, "2000 ms apart", "retransmission spacing is not the read timeout")
+                if any(b - a != RT for a, b in zip(ts, ts[1:])):
+                    ctx.violate("tx_bounds", inp, ts, f"{RT} ms apart (the measured read timeout)", "retransmissions are not evenly spaced by the read timeout")
                 ctx.case("tx_bounds", key=(version, retries, answered, delay), sample={**{k: inp[k] for k in ("retries", "answered", "delay")}, "tx": n, "out": out[:14]})
 
 
@@ -268,7 +269,8 @@ def patch_sendn():
     sessim._sendn = True
     orig_model_line = sessim.model_line
 
-    def model_line(ops, rx, connects, params=(2000, 5000, 1000)):
+    def model_line(ops, rx, connects, params=None):
+        params = params or sessim.measure_params()
         line = orig_model_line([o for o in ops if o[0] != "sendn"] and ops, rx, connects, params)
         return line
     orig_run = sessim.run_history
@@ -302,7 +304,8 @@ def patch_sendn():
             L.send = orig_send
     sessim.run_history = run_history
 
-    def opstr_line(ops, rx, connects, params=(2000, 5000, 1000)):
+    def opstr_line(ops, rx, connects, params=None):
+        params = params or sessim.measure_params()
         def opstr(op):
             if op[0] == "sendn":
                 return "sendn." + hx(op[1]) + "." + str(op[2])
